@@ -377,6 +377,12 @@ func (g *Gen) opInsert(t *Table) []Op {
 		g.touch = append(g.touch, touched{t.Name, id})
 	}
 	ops := []Op{op}
+	if name != "" && g.prof.Name == "named" && g.chance(250) {
+		// the name as a map key that is added and taken away again by key
+		if extra := g.opKeyInAndOut(t.Name, "@"+name); extra != nil {
+			ops = append(ops, extra...)
+		}
+	}
 	// a non-root row needs a strong reference to survive: add one
 	if !g.sch.IsRoot(t.Name) && g.chance(g.prof.Compose) {
 		target := id
@@ -443,6 +449,38 @@ func (g *Gen) opReferTo(table, target string) Op {
 	}
 	g.touch = append(g.touch, touched{s.t.Name, f})
 	return Op{"op": "mutate", "table": s.t.Name, "where": g.whereUUID(f), "mutations": []any{[]any{s.c.Name, "insert", ValueToWire(val, g.chance(500))}}}
+}
+
+// opKeyInAndOut uses target (a row of table) as key of a uuid-keyed map of some
+// existing row and removes that key again with the key-set form of "delete".
+func (g *Gen) opKeyInAndOut(table, target string) []Op {
+	for _, tn := range g.sch.TableNames {
+		t := g.sch.Tables[tn]
+		for _, cn := range t.ColNames {
+			c := t.Columns[cn]
+			if !c.Type.IsMap() || c.Type.Key.RefTable != table || c.Immutable {
+				continue
+			}
+			from := g.rowsOf(tn)
+			if len(from) == 0 {
+				continue
+			}
+			f := from[g.pick(len(from))]
+			x, ok := g.atom(c.Type.Val, cn)
+			if !ok {
+				continue
+			}
+			ta := AUUID(target)
+			g.touch = append(g.touch, touched{tn, f})
+			ins := Op{"op": "mutate", "table": tn, "where": g.whereUUID(f), "mutations": []any{[]any{cn, "insert", ValueToWire(MapOf(Pair{ta, x}), false)}}}
+			del := Op{"op": "mutate", "table": tn, "where": g.whereUUID(f), "mutations": []any{[]any{cn, "delete", ValueToWire(SetOf(ta), g.chance(500))}}}
+			if g.chance(300) {
+				return []Op{ins} // stays
+			}
+			return []Op{ins, del}
+		}
+	}
+	return nil
 }
 
 func (g *Gen) opUpdate(t *Table) []Op {
